@@ -10,6 +10,7 @@ use crate::ev;
 use crate::fault::FaultReader;
 use gimli::{EndianSlice, Error, Reader, Result, RunTimeEndian};
 
+pub mod accel;
 pub mod cfi;
 pub mod info;
 pub mod line;
@@ -163,6 +164,8 @@ pub fn drive_family<'a, R: Reader<Offset = usize> + 'a>(
         "info" => info::info(mk, case, ctx),
         "cfi" => cfi::cfi(mk, case, ctx),
         "op" => op::ops(mk, case, ctx),
+        "names" => accel::names(mk, case, ctx),
+        "index" => accel::index(mk, case, ctx),
         other => panic!("unknown family {}", other),
     }
 }
